@@ -160,6 +160,83 @@ def kill_any_time(k: int) -> bool:
     return ok
 
 
+def _written_total(name):
+    """number of PDUs the provider writes in the complete conversation (computed once, outside the solver)"""
+    if name not in _WRITTEN:
+        acc, turns = CORPUS[name]
+        _WRITTEN[name] = prov.Conversation(turns, acceptor=acc, segmenter=lambda i, raw: pdu_split(raw)).run().n_sent
+    return _WRITTEN[name]
+
+
+_WRITTEN = {}
+
+
+def _cut_at_written(name, g, how):
+    """the conversation in which the peer disconnects at the moment the provider has written g PDUs: peer turns that
+    wait for more than g written PDUs never happen, the local user goes on as far as its gates are reached"""
+    acc, turns = CORPUS[name]
+    out = []
+    placed = False
+    for t in turns:
+        if t[0] in ('close', 'reset'):
+            continue
+        if t[0] == 'peer' and t[2] > g:
+            if not placed:
+                out.append((how, None, g))
+                placed = True
+            continue
+        if t[0] == 'peer' and placed:
+            continue
+        out.append(t)
+    if not placed:
+        out.append((how, None, g))
+    return acc, out
+
+
+@cond(bounds='disconnection between any two local steps: in every conversation the peer disconnects (orderly close / reset: '
+             'one instance each) at the moment the provider has written g PDUs, g a symbolic choice in 0..all PDUs the '
+             'provider writes in that conversation (e.g. between two fragments of a message being sent, between the '
+             'response and the release); every peer turn that does not wait for more than g written PDUs is delivered '
+             'before, the local user goes on issuing the primitives of the scenario as far as their gates are reached',
+      family=[dict(conv=n, how=h) for n in NAMES for h in ('close', 'reset')], timeout=240)
+def disconnect_between_local_steps(g: int) -> bool:
+    """
+    pre: 0 <= g <= _written_total(fam('conv'))
+    post: _
+    """
+    name = fam('conv')
+    gg = pick(g, 0, _written_total(name))
+    acc, cut = _cut_at_written(name, gg, fam('how'))
+    conv = prov.Conversation(cut, acceptor=acc, segmenter=lambda i, raw: pdu_split(raw))
+    tr = conv.run()
+    ok = ended_cleanly(tr, conv)
+    deep(ok and gg == _written_total(name))
+    return ok
+
+
+@cond(bounds='a request to stop the provider while the peer is silent: at every silence point the termination flag is raised '
+             'at a symbolic loop iteration k in 0..12 with the clock advancing by a symbolic dt in 0..30 s per iteration: the '
+             'loop returns (no blocking read, exit event set) within two iterations of the request, whether or not ARTIM '
+             'has expired by then',
+      family=[dict(point=k) for k in sorted(SILENCE)], timeout=240)
+def kill_while_silent(k: int, dt: int) -> bool:
+    """
+    pre: 0 <= k <= 12 and 0 <= dt <= 30
+    post: _
+    """
+    acc, turns = SILENCE[fam('point')]
+    conv = prov.Conversation(turns, acceptor=acc, budget=60)
+    conv.tick = dt
+    conv.silent = True
+    conv.kill_at = pick(k, 0, 12)
+    tr = conv.run()
+    no_hang = tr.err is None or not tr.err.startswith('hang')
+    ok = no_hang and not tr.over_budget and tr.exit_set and \
+        (tr.steps <= conv.kill_at + 2 or conv.finished() or tr.err is not None)
+    deep(ok and k == 5 and dt == 3)
+    return ok
+
+
 @cond(bounds='two acceptor-side associations on one entity over REAL providers: A\'s peer connects and never sends its first '
              'PDU (or: A refused the association and the peer never closes - one instance each); meanwhile a second '
              'association B is accepted, served and released normally; then the clock advances by a SYMBOLIC dt in '
@@ -246,6 +323,15 @@ def explain(cname, args, famv):
         conv = prov.Conversation(cut, acceptor=acc,
                                  segmenter=lambda i, raw: ([raw[:p]] if p else [None]) if i == turn else pdu_split(raw))
         conv.drop_none = True
+    elif cname == 'disconnect_between_local_steps':
+        acc, cut = _cut_at_written(famv['conv'], args['g'], famv['how'])
+        conv = prov.Conversation(cut, acceptor=acc, segmenter=lambda i, raw: pdu_split(raw))
+    elif cname == 'kill_while_silent':
+        acc, turns = SILENCE[famv['point']]
+        conv = prov.Conversation(turns, acceptor=acc, budget=60)
+        conv.tick = args['dt']
+        conv.silent = True
+        conv.kill_at = args['k']
     elif cname == 'silent_peer':
         acc, turns = SILENCE[famv['point']]
         conv = prov.Conversation(turns, acceptor=acc, budget=60)
